@@ -21,7 +21,7 @@ def ns(store, tag="ns"):
         "pop": pop, "get": get, "__getitem__": lambda c, s_, a, k: s_.attrs["store"][a[0]],
         "__setitem__": lambda c, s_, a, k: s_.attrs["store"].__setitem__(a[0], a[1]),
         "__getattr__": lambda c, s_, a, k: s_.attrs["store"][a[0]],
-        "__bool__": lambda c, s_, a, k: bool(s_.attrs["store"]),
+        "__bool__": lambda c, s_, a, k: bool(s_.attrs["store"]), "__contains__": lambda c, s_, a, k: a[0] in s_.attrs["store"],
         "__kwargs__": lambda c, s_, a, k: dict(s_.attrs["store"]),
     })
     return r
@@ -29,13 +29,14 @@ def ns(store, tag="ns"):
 
 def act_setup(ctx):
     mode = ["parse", "serialize", "instantiate", "instantiate-partial", "instantiate-not-requested"][ctx.choose(5, "mode")]
-    dk_kind = ["none", "known+extra", "extra-only"][ctx.choose(3, "dict_kwargs")]
+    dk_kind = ["none", "known+extra", "extra-only", "a-declared-parameter-that-init_args-also-gives"][ctx.choose(4, "dict_kwargs")]
     prev_kind = ["none", "same-class-with-dict_kwargs", "other-class"][ctx.choose(3, "prev_val")]
     a_val, known_val, extra_val = z3.Int("init_args.a"), z3.Int("dict_kwargs.known"), z3.Int("dict_kwargs.extra")
     # init_args given, or none at all (class_path only): the class's parser must validate either way - that is where a missing required parameter is caught
     init_store = {"a": a_val} if ctx.choose(2, "init_args-given") == 0 else {}
     init_args = ns(init_store, "init_args")
-    dict_kwargs = {"none": None, "known+extra": {"known": known_val, "extra": extra_val}, "extra-only": {"extra": extra_val}}[dk_kind]
+    twice_val = z3.Int("dict_kwargs.a")
+    dict_kwargs = {"none": None, "known+extra": {"known": known_val, "extra": extra_val}, "extra-only": {"extra": extra_val}, "a-declared-parameter-that-init_args-also-gives": {"a": twice_val, "extra": extra_val}}[dk_kind]
     store = {"class_path": "pkg.Sub", "init_args": init_args}
     if dict_kwargs is not None:
         store["dict_kwargs"] = dict_kwargs
@@ -78,7 +79,7 @@ def act_setup(ctx):
         "Namespace": lambda c, a, k: ns({}, "empty"),
         "get_class_instantiator": lambda c, a, k: Rec("instantiator", methods={"__call__": lambda c2, s2, a2, k2: instantiator(c2, a2, k2)}),
         "sub_defaults.get": lambda c, a, k: False, "dump_kwargs.get": lambda c, a, k: dict(caller_dump_kwargs), "load_value": load_value,
-        "_find_action": lambda c, a, k: Rec("Action") if a[1] == "known" else None,
+        "_find_action": lambda c, a, k: Rec("Action") if a[1] in ("known", "a") else None,
         "get_loader_exceptions": lambda c, a, k: (),
     }
 
@@ -94,7 +95,7 @@ def act_setup(ctx):
     env = {"value": value, "serialize": mode == "serialize", "instantiate_classes": mode.startswith("instantiate"), "sub_add_kwargs": sub_add_kwargs, "prev_val": prev, "skip_args": 0,
            "partial_classes": mode == "instantiate-partial"}
     return Setup(env=env, calls=calls, consts=consts, symcall=symcall, cms={"suppress": suppress_cm()},
-                 data=dict(prev=prev, dumped_text=dumped_text, loaded=loaded, caller_dump_kwargs=caller_dump_kwargs, init_args=init_args, init_given=bool(init_store), mode=mode, dk_kind=dk_kind, prev_kind=prev_kind, value=value, store=store, init_store=init_store, sub_cls=sub_cls, validated=validated, instantiated=instantiated,
+                 data=dict(twice_val=twice_val, prev=prev, dumped_text=dumped_text, loaded=loaded, caller_dump_kwargs=caller_dump_kwargs, init_args=init_args, init_given=bool(init_store), mode=mode, dk_kind=dk_kind, prev_kind=prev_kind, value=value, store=store, init_store=init_store, sub_cls=sub_cls, validated=validated, instantiated=instantiated,
                            instance=instance, a_val=a_val, known_val=known_val, extra_val=extra_val, prev_extra=prev_extra))
 
 
@@ -113,6 +114,10 @@ def act_post(ctx, st, result):
         want = {"a": d["a_val"]} if d["init_given"] else {}
         if d["dk_kind"] == "known+extra":
             want["known"] = d["known_val"]
+        if d["dk_kind"].startswith("a-declared-parameter"):
+            # every value the constructor would receive for a declared parameter meets that parameter's type: the dict_kwargs entry is what the constructor
+            # gets ({**init_args, **dict_kwargs}), so it is the one that is validated, whether or not init_args names the parameter too
+            want["a"] = d["twice_val"]
         ok = len(val) == 1 and set(val[0][1]) == set(want) and all(val[0][1][k] is want[k] for k in want)
         ctx.oblige("post", "init_args(plus the dict_kwargs this class's parser knows)-are-validated-by-that-parser,once" + tag, ok)
         ctx.oblige("post", "the-validated-object-becomes-init_args" + tag, result is d["value"] and d["store"].get("init_args") is d["validated"])
@@ -142,6 +147,8 @@ def act_post(ctx, st, result):
                 want.update(known=d["known_val"], extra=d["extra_val"])
             elif d["dk_kind"] == "extra-only":
                 want.update(extra=d["extra_val"])
+            elif d["dk_kind"].startswith("a-declared-parameter"):
+                want.update(a=d["twice_val"], extra=d["extra_val"])
             ok = len(cons) == 1 and cons[0][1] is d["sub_cls"] and cons[0][2] == () and set(cons[0][3]) == set(want) and all(cons[0][3][k] is want[k] for k in want)
             ctx.oblige("post", "the-named-class-is-constructed-exactly-once-with-{**instantiated init_args, **dict_kwargs}" + tag, ok)
             ctx.oblige("post", "after-the-nested-ones,and-that-object-is-returned" + tag, result is d["instance"] and ev.index(nested[0]) < ev.index(cons[0]) if (nested and cons) else False)
